@@ -177,3 +177,35 @@ pub fn pull<I: Iterator>(mut it: I, budget: usize) -> (Vec<I::Item>, bool) {
     let done = it.next().is_none();
     (v, done)
 }
+
+/// Observations of a (finite) point iterator through Iterator methods an implementation may override, each on a fresh
+/// iterator from `mk`: count(), last(), size_hint() of the fresh iterator, a walk with nth(stride - 1) recorded as
+/// [index, x, y], the size_hint after `k` items, and two more next() calls after the end.
+pub fn iter_protocol<I: Iterator<Item = embedded_graphics::geometry::Point>>(mk: impl Fn() -> I, stride: usize) -> serde_json::Value {
+    use serde_json::json;
+    let cnt = mk().count();
+    let last = mk().last().map(|p| json!([p.x, p.y])).unwrap_or(json!([]));
+    let (lo, hi) = mk().size_hint();
+    let mut walk = vec![];
+    let mut it = mk();
+    let mut idx = stride - 1;
+    while let Some(p) = it.nth(stride - 1) {
+        if walk.len() < 4096 {
+            walk.push(json!([idx, p.x, p.y]));
+        }
+        idx += stride;
+        if idx > cnt + 2 * stride + 16 {
+            break;
+        }
+    }
+    let after = [it.next().is_none() as i32, it.next().is_none() as i32];
+    // size_hint in the middle
+    let mut it2 = mk();
+    let k = cnt / 2;
+    for _ in 0..k {
+        it2.next();
+    }
+    let (mlo, mhi) = it2.size_hint();
+    json!({"cnt": cnt, "last": last, "lo": lo.min(1 << 30), "hi": hi.map(|h| h.min(1 << 30) as i64).unwrap_or(-1), "stride": stride, "walk": walk,
+           "after": after, "k": k, "mlo": mlo.min(1 << 30), "mhi": mhi.map(|h| h.min(1 << 30) as i64).unwrap_or(-1)})
+}
